@@ -4,6 +4,7 @@ package core
 
 import (
 	"bufio"
+	"bytes"
 	"encoding/json"
 	"flag"
 	"fmt"
@@ -11,7 +12,12 @@ import (
 	"path/filepath"
 	"sync"
 	"sync/atomic"
+	"time"
 )
+
+// ScenarioTimeout bounds one scenario; a sequential scenario normally takes
+// milliseconds, so hitting it means a call did not return.
+var ScenarioTimeout = 60 * time.Second
 
 // Opts are the common command-line options of every engine.
 type Opts struct {
@@ -121,16 +127,38 @@ func RunPool(o *Opts, scens []json.RawMessage, fn func(w int, dir string, tr *Tr
 			}
 			dir := filepath.Join(o.Dir, fmt.Sprintf("w%d", w))
 			os.MkdirAll(dir, 0o755)
+			cur, _ := os.Create(fmt.Sprintf("%s.%d.cur", o.Out, w))
 			for {
 				i := int(atomic.AddInt64(&next, 1))
 				if i >= len(scens) || firstErr.Load() != nil {
 					break
 				}
+				if bytes.HasPrefix(scens[i], []byte(`{"skip"`)) {
+					continue
+				}
+				// progress marker: lets the driver find the scenario that killed or hung the process
+				if cur != nil {
+					cur.WriteAt([]byte(fmt.Sprintf("%-12d", i)), 0)
+				}
 				tr.Begin(i)
-				if err := fn(w, dir, tr, i, scens[i]); err != nil {
-					firstErr.CompareAndSwap(nil, fmt.Errorf("scenario %d: %w", i, err))
+				done := make(chan error, 1)
+				go func() { done <- fn(w, dir, tr, i, scens[i]) }()
+				select {
+				case err := <-done:
+					if err != nil {
+						firstErr.CompareAndSwap(nil, fmt.Errorf("scenario %d: %w", i, err))
+					}
+				case <-time.After(ScenarioTimeout):
+					fmt.Fprintf(os.Stderr, "scenario %d did not finish within %s\n", i, ScenarioTimeout)
+					os.Exit(4)
+				}
+				if firstErr.Load() != nil {
 					break
 				}
+			}
+			if cur != nil {
+				cur.WriteAt([]byte(fmt.Sprintf("%-12d", -1)), 0)
+				cur.Close()
 			}
 			if err := tr.Close(); err != nil {
 				firstErr.CompareAndSwap(nil, err)
